@@ -119,7 +119,7 @@ Definition rr_satisfy_environmental (k : knode) : option knode :=
   | None => None
   | Some (outs', reply, _) =>
       let '(t2, _) := t_push t1 reply true in
-      Some (k_with k t2 outs' (k_ins k) (Qred (k_envsat k + vol environmental)))
+      Some (k_with k t2 outs' (k_ins k) (Qred (k_envsat k + (vol environmental - vol reply))))
   end.
 
 (* close-out *)
